@@ -36,7 +36,7 @@ SIZES = [2, 3, 2, 2]
 
 def bounds(tier):
     return {'attributes': 3 if tier == 'quick' else '3 (all families) + 4 (all antichains, cliques <= 3)', 'sweeps': ['d', '2d', 60],
-            'history_depth': 2 if tier == 'quick' else 3, 'potential_classes': ['a', 'b', 'c', 'z (a whole attribute value structurally impossible)'], 'totals': [1.0, 10.0]}
+            'history_depth': 2 if tier == 'quick' else 3, 'potential_classes': ['a', 'b', 'c', 'z (a whole attribute value structurally impossible)'], 'totals': [1.0, 10.0, 0.25]}
 
 
 def families(k, antichains_only):
@@ -138,8 +138,9 @@ def run_family(acc, job, fam, present):
     # RegionGraph(convex=False) discards non-maximal cliques: antichains are the distinct inputs
     is_antichain = len(maximal) == len(cliques)
     for minimal in ((True, False) if is_antichain else ()):
-        for total in (1.0, 10.0):
+        for total0 in (1.0, 10.0):
             for pclass in ('a', 'b', 'c', 'z'):
+                total = 0.25 if (total0 == 1.0 and pclass in ('c', 'z')) else total0    # totals below one record for two of the classes
                 rg0 = RegionGraph(dom, list(cliques), total=total, minimal=minimal, convex=False, iters=60)
                 regions = list(rg0.cliques)
                 d = max(1, len(regions))
